@@ -705,7 +705,13 @@ def gen_cases(tier, rng):
             a = (nxt[0], kind, qs, p)
             nxt[0] += 1
             form = rng.choice(["same", "same", "same", "distinct", "barrier", "barrier2", "qs", "param", "triple", "bar_before",
-                               "bar_before_sep", "sandwich", "sandwich"])
+                               "bar_before_sep", "sandwich", "sandwich", "perm", "perm"])
+            if form == "perm" and n >= 3 and rng.random() < 0.6:
+                # a gate that is symmetric in SOME of its qubits only (controlled swap, controlled Z / X with several controls)
+                kind = rng.choice([f"MCtrl:Swap:{rng.randint(1, n - 2)}", f"MCtrl:Z:{rng.randint(1, n - 1)}", f"MCX:{rng.randint(1, n - 1)}"])
+                qs = rng.sample(range(n), kind_arity(kind))
+                p = kind_param(rng, kind)
+                a = (a[0], kind, qs, p)
             if form == "same":
                 ins = [a, a]
             elif form == "distinct":
@@ -721,6 +727,16 @@ def gen_cases(tier, rng):
                 ins = [a, (a[0], kind, rng.sample(range(n), kind_arity(kind)), p)]
             elif form == "param":
                 ins = [a, (a[0], kind, list(qs), (p + 0.5) if p is not None else None)]
+            elif form == "perm":
+                # the same gate object on the same SET of qubits in another order (with or without a barrier between)
+                pq = list(qs)
+                if len(pq) >= 2:
+                    while pq == list(qs):
+                        rng.shuffle(pq)
+                ins = [a, (a[0], kind, pq, p)]
+                if rng.random() < 0.3:
+                    ins = [a, (nxt[0], "Barrier", [], None), (a[0], kind, pq, p)]
+                    nxt[0] += 1
             elif form == "triple":
                 ins = [a, a, a]
             elif form == "sandwich":
